@@ -13,12 +13,16 @@
    the property states, injection complete before the first callback (the snapshots equal the FINAL
    state of the points), nothing at all for components that were not created (lazy and not needed),
    exactly one Init for every eagerly created component that has one.
-   NOT proved in Rocq (decided on every run by the oracle [deps_first] / [lazy_only_if_needed] of
-   Corr/WiringOracles.v and by the exact log correspondence): "when Init c runs, every dependency that
-   does not depend back on c has completed its own Init" and "a lazy component is created only if an
-   eager one (transitively) needs it" — c05_deps_first is the partial part of C05. *)
+   [c05_deps_first] (Proofs/FactoryDeps.v): when c has been initialised and holds d, every lifecycle event
+   of d is older than every lifecycle event of c, or d transitively REQUESTED c (d was still being created,
+   waiting for c: it depends back on c).  "Requests" are the components the property pipeline proposes for
+   the holder's points ([plan]).
+   NOT proved in Rocq (decided on every run by the oracle [lazy_only_if_needed] of Corr/WiringOracles.v and by
+   the exact log correspondence): "a lazy component is created only if an eager one (transitively) needs
+   it" in its positive form; what is proved about laziness is [c05_uncreated_untouched] and exactly-once. *)
 From Coq Require Import List Arith Bool ZArith.
-From IocVerif Require Import Model.App Proofs.FactoryLifecycle Proofs.FactoryInvariant.
+From IocVerif Require Import Model.App Proofs.FactoryLifecycle Proofs.FactoryInvariant Proofs.FactoryNoPanic
+  Proofs.FactoryWiring Proofs.FactoryDeps.
 Import ListNotations.
 
 (* one lifecycle block per published component; none for the others *)
@@ -97,6 +101,29 @@ Theorem c05_uncreated_untouched : forall s st n c,
 Proof.
   intros s st n c H Hc Hn. pose proof (c05_lifecycle s st H n c Hc) as HL. rewrite Hn in HL.
   split; [exact HL|]. rewrite count_init_sub, HL. reflexivity.
+Qed.
+
+(* dependencies first *)
+Theorem c05_deps_first : forall s st,
+  run repaired s = Ok st ->
+  procs_pointless_b (normalise repaired s) = true -> stages_ok_b (normalise repaired s) = true ->
+  forall c k v, alookup c (L1 (reg st)) <> None -> In v (field_of st c k) -> owner v <> c ->
+    (* d = owner v completed before c began: all its lifecycle events are older than all of c's *)
+    (alookup (owner v) (L1 (reg st)) <> None /\ older (owner v) c (log st))
+    (* or d depends back on c *)
+    \/ dep repaired (normalise repaired s) (owner v) c.
+Proof.
+  intros s st H Hp Hs. exact (run_core_DF repaired (normalise repaired s) st eq_refl eq_refl eq_refl eq_refl Hp Hs H).
+Qed.
+
+(* in particular: no Init of d between the start of the log and the Init of c *)
+Theorem c05_init_order : forall d c l l1 l2,
+  older d c l -> l = l1 ++ EvInit c :: l2 -> ~ In (EvInit d) l1.
+Proof.
+  intros d c l l1 l2 Ho Heq Hin.
+  assert (Hs : sub d l1 = []) by (apply (Ho l1 (EvInit c) l2 Heq); cbn; apply Nat.eqb_refl).
+  assert (Hi : In (EvInit d) (sub d l1)) by (unfold sub; apply filter_In; split; [exact Hin|cbn; apply Nat.eqb_refl]).
+  rewrite Hs in Hi. contradiction.
 Qed.
 
 (* non-vacuity: a diamond (4 <- 2,3 <- 5) with an observing processor and a lazy component nobody needs *)
